@@ -380,6 +380,17 @@ pub fn run(ctx: &Ctx) -> ! {
         }
     }));
     let s_inv2 = corpus::drive(ctx, &uni, &cfg6, &|_| {}, &|_| {}, &on_panic);
+    let cfg7 = {
+        let mut c = corpus::var_reuse_cfg(&uni);
+        c.max_arg_maps = 0;
+        c
+    };
+    let s_var = corpus::drive(ctx, &uni, &cfg7, &|_| {}, &|_| {}, &on_panic);
+    tally.parsed.fetch_add(s_var.queries_done, Ordering::Relaxed);
+    tally.ok.fetch_add(s_var.compiled, Ordering::Relaxed);
+    tally.err.fetch_add(s_var.rejected, Ordering::Relaxed);
+    per_generator.insert("f-variable-reuse".into(), s_var.to_json());
+    capped |= s_var.capped;
     tally.parsed.fetch_add(s_inv.queries_done + s_inv2.queries_done, Ordering::Relaxed);
     tally.ok.fetch_add(s_inv.compiled + s_inv2.compiled, Ordering::Relaxed);
     tally.err.fetch_add(s_inv.rejected + s_inv2.rejected, Ordering::Relaxed);
